@@ -46,6 +46,18 @@ CHECKS = {
             "fault injection at every write/create/fsync/unlink position of a plan (one rerun per position), model-based oracle with the faulted key ambiguous",
             "Each plan is rerun once per fallible call position with that call failing (ENOSPC/EIO, transient). The faulted operation must report an error, every other operation must succeed and match the model in the running process and after restart, the directory must reopen and accept further work. Exhaustive over positions per plan; plans sampled.",
             "Faults are whole-call failures at the libc boundary (no short writes)."),
+    "C04": ("exploration", "DESIGN.md 5/C04",
+            "recorded concurrent histories at the Handle boundary checked by a per-key Wing-Gong linearizability search; panic / reader-pool / stall monitors; shim-injected delays",
+            "Many threads (writers, readers, deleter, merging thread) drive one store in barrier-separated segments under seeded delay injection at file-system calls; every (key, segment) history is checked for linearizability against a set/get/del register, every op runs under catch_unwind, the reader pool is inspected at every barrier and a 30 s no-progress rule catches hangs. Thorough adds a ThreadSanitizer build of the same worker. Held on the interleavings produced.",
+            "Stamps from one atomic counter taken outside the calls (can only widen intervals). Interleavings are sampled."),
+    "C07": ("exploration", "DESIGN.md 5/C07",
+            "differential monitor: Frame::check / Frame::parse vs an independent i128, non-recursive reference decoder over generated, truncated, corrupted and adversarial inputs; child-process death observed",
+            "Millions of inputs (grammar-generated frames with all truncations and corruptions, numbers at every buffer offset 1..64 around the 2^63/2^64 limits, random RESP-alphabet strings, nesting up to 10^6, absurd lengths under RLIMIT_AS) are fed to check and parse on a 2 MiB stack in child processes: no panic, no death, every returned frame equals the reference's with the same length, and check/parse agree on length. Thorough adds a release build (wrapping arithmetic) and a Miri pass.",
+            "The reference decoder's explicit leniencies are the implementation's documented ones."),
+    "C08": ("exploration", "DESIGN.md 5/C08",
+            "round-trip monitor over an in-memory stream that delivers exactly chosen segments; reference encoder; exhaustive two-way splits and prefixes for short encodings",
+            "Generated frame sequences are written with Connection::write_frame (bytes must equal the reference encoding) and read back with Connection::read_frame under all-at-once, byte-by-byte, every two-segment split and random segmentations (same frames, then clean None); every strict prefix must be Incomplete for Frame::check and a stream ending inside a frame must give an error. Thorough repeats a reduced set under Miri.",
+            "Nested arrays are not frames the connection can write (unimplemented in write_frame)."),
 }
 
 NOT_YET = {
